@@ -8,7 +8,7 @@ GEN_FILES = []
 THEOREMS = []          # filled below from THEOREM_NAMES that exist in Props/C07.lean
 THEOREM_NAMES = ['rotateOnce_pairs', 'rotateOnce_single', 'rotateOnce_strands', 'rotate_period', 'rotatePtOnce_spec',
                  'rotationsPt_length', 'wrap_eq_emod']
-THEOREMS = []   # ['Dsd.C07.' + t for t in THEOREM_NAMES] once Props/C07.lean carries them
+THEOREMS = ['Dsd.C07.' + t for t in THEOREM_NAMES]
 ASSUMPTIONS = [
     'rotate_complex_once / rotate_complex_pt are hand-modelled (Model/Complex.lean: rotateOnce, rotatePtOnce, rotationsPt) and tied '
     'to the code by the correspondence streams rot1 / rotpt',
